@@ -167,7 +167,16 @@ where
     type Values = Timeline::Target;
 
     fn advance(&mut self, elapsed_seconds: f32) {
-        self.state_duration += Duration::from_secs_f32(elapsed_seconds);
+        // Saturate rather than panic when the elapsed time or the accumulated total exceeds what
+        // a `Duration` can represent.
+        let elapsed = Duration::try_from_secs_f32(elapsed_seconds).unwrap_or(
+            if elapsed_seconds > 0.0 {
+                Duration::MAX
+            } else {
+                Duration::ZERO
+            },
+        );
+        self.state_duration = self.state_duration.saturating_add(elapsed);
         self.update_current_values();
     }
 
